@@ -52,7 +52,7 @@ def run(check, tier):
     else:
         for part in (1, 2, 3):
             for s1 in allN:
-                for s2 in allN:
+                for s2 in sorted(rnd.sample(allN, 3)):
                     form = rnd.randrange(3)
                     jobs.append(dict(fn="skips", fixed=dict(part=part, s1=s1, s2=s2, l2=rnd.randrange(NONE_N + 1), form=form,
                                                             nofloat=1, maxlen=1),
